@@ -251,6 +251,53 @@ impl<const LIFE: bool> DeadlineAccess for Probe<Composite, LIFE> {}
 impl<T, const LIFE: bool> DeadlineAccess for Probe<calloop::futures::Executor<T>, LIFE> {}
 impl<S: futures::Stream + Unpin, const LIFE: bool> DeadlineAccess for Probe<calloop::stream::StreamSource<S>, LIFE> {}
 
+/// A future driven by the scenario: `complete` makes it ready, `wake` wakes the waker it stored at its last poll.
+#[derive(Default)]
+pub struct FutState {
+    pub ready: Option<i64>,
+    pub waker: Option<std::task::Waker>,
+    pub polls: u32,
+}
+
+pub struct ManualFut {
+    pub s: u32,
+    pub f: i64,
+    pub st: Rc<RefCell<FutState>>,
+    /// runs the scripted operations of the k-th poll (scheduling / completing / waking from inside a future)
+    pub on_poll: Box<dyn Fn(i64, u32)>,
+}
+
+impl std::future::Future for ManualFut {
+    type Output = i64;
+    fn poll(self: std::pin::Pin<&mut Self>, cx: &mut std::task::Context<'_>) -> std::task::Poll<i64> {
+        let k = {
+            let mut st = self.st.borrow_mut();
+            st.polls += 1;
+            st.polls - 1
+        };
+        ev("poll", json!({"s": self.s, "f": self.f, "k": k}));
+        (self.on_poll)(self.f, k);
+        let mut st = self.st.borrow_mut();
+        if let Some(v) = st.ready {
+            st.waker = None;
+            drop(st);
+            ev("pollret", json!({"s": self.s, "f": self.f, "r": "ready", "v": v}));
+            std::task::Poll::Ready(v)
+        } else {
+            st.waker = Some(cx.waker().clone());
+            drop(st);
+            ev("pollret", json!({"s": self.s, "f": self.f, "r": "pending", "v": 0}));
+            std::task::Poll::Pending
+        }
+    }
+}
+
+impl Drop for ManualFut {
+    fn drop(&mut self) {
+        ev("fdrop", json!({"s": self.s, "f": self.f}));
+    }
+}
+
 /// A stream fed by the driver: items are pushed between (or during) dispatches.
 #[derive(Default)]
 pub struct StreamState {
